@@ -82,6 +82,21 @@ def run(res, tier, replay):
         for m_ in range(mems):
             r_ = scenario.Scn(); r_.lines.append("recycle 1"); r_.file("in0.cab", cab).op("cab_new").op("cab_open", "c0", "in0.cab").op("cab_extract", "c0", m_, "ref")
             scns.append(r_); meta.append(("rcy-ref", 5000 + i, m_))
+    # tiny members right behind longer ones (a request shorter than what the decoder still holds from the previous call: a match that
+    # straddles the end of a member leaves up to 258 decoded bytes waiting), every method, in order / skipping / repeating
+    for i in range(4 if tier == "quick" else 24):
+        from vlib import cabfmt
+        meth = [("qtm", 15), ("lzx", 16), ("mszip",), ("qtm", 10)][i % 4]
+        lens = [rng.randrange(100, 400), rng.randrange(1, 6), rng.randrange(1, 6), rng.randrange(20, 90), rng.randrange(1, 4), rng.randrange(200, 700), 1, 1, rng.randrange(100, 3000)]
+        if meth[0] == "mszip": fo = cabfmt.Folder(meth, cabfmt.random_members(rng, len(lens), lens=lens))
+        else: fo = cabfmt.Folder(meth, [cabfmt.Member(b"t%d.bin" % j, length=lens[j]) for j in range(len(lens))])
+        cab = cabfmt.build_single([fo], rng, with_ck=True); mems = len(lens)
+        order = list(range(mems)) + [0, 2, 3, 5, 6, 8] + [1, 2, 4, 7, 8] + [rng.randrange(mems) for _ in range(6)] + [0, 1, 3, 4]
+        sc = scenario.Scn().file("in0.cab", cab).op("cab_new").op("cab_open", "c0", "in0.cab")
+        for j, m_ in enumerate(order): sc.op("cab_extract", "c0", m_, "o%d_%d" % (j, m_))
+        scns.append(sc); meta.append(("tny-hist", 7000 + i, order))
+        for m_ in range(mems):
+            scns.append(scenario.Scn().file("in0.cab", cab).op("cab_new").op("cab_open", "c0", "in0.cab").op("cab_extract", "c0", m_, "ref")); meta.append(("tny-ref", 7000 + i, m_))
     trs = scenario.run_scenarios(exe, scns)
     ref = {}
     for t, m in zip(trs, meta):
@@ -100,7 +115,7 @@ def run(res, tier, replay):
         for j, o in enumerate(ex):
             idx = int(o.kv["idx"]) if "idx" in o.kv else m[2][j]
             want = ref.get((m[0][:3], m[1], idx)); ncalls += 1
-            if m[0] == "rcy-hist": idx = m[2][j]
+            if m[0] in ("rcy-hist", "tny-hist"): idx = m[2][j]
             fol = m[2][idx] if m[0] == "cab-hist" and idx < len(m[2]) else None
             if want is None: continue
             if (o.kv.get("st"), o.out) != want:
